@@ -4,7 +4,7 @@
 use crate::proto::{KeyMaterial, Proto};
 use ring::signature::KeyPair;
 
-pub const RSA_POOL: [(&[u8], &[u8]); 7] = [
+pub const RSA_POOL: [(&[u8], &[u8]); 9] = [
   (include_bytes!(concat!(env!("CARGO_MANIFEST_DIR"), "/../fixtures/rsa/k0.pk8")), include_bytes!(concat!(env!("CARGO_MANIFEST_DIR"), "/../fixtures/rsa/k0.pub.der"))),
   (include_bytes!(concat!(env!("CARGO_MANIFEST_DIR"), "/../fixtures/rsa/k1.pk8")), include_bytes!(concat!(env!("CARGO_MANIFEST_DIR"), "/../fixtures/rsa/k1.pub.der"))),
   (include_bytes!(concat!(env!("CARGO_MANIFEST_DIR"), "/../fixtures/rsa/k2.pk8")), include_bytes!(concat!(env!("CARGO_MANIFEST_DIR"), "/../fixtures/rsa/k2.pub.der"))),
@@ -13,6 +13,15 @@ pub const RSA_POOL: [(&[u8], &[u8]); 7] = [
   (include_bytes!(concat!(env!("CARGO_MANIFEST_DIR"), "/../fixtures/rsa/k5.pk8")), include_bytes!(concat!(env!("CARGO_MANIFEST_DIR"), "/../fixtures/rsa/k5.pub.der"))),
   // the repository's official v1 test-vector pair
   (include_bytes!(concat!(env!("CARGO_MANIFEST_DIR"), "/../fixtures/rsa/k6.pk8")), include_bytes!(concat!(env!("CARGO_MANIFEST_DIR"), "/../fixtures/rsa/k6.pub.der"))),
+  // RSA-2048 pairs with public exponents other than 65537 (2^32 + 1: five bytes; 65539): the pinned library round-trips them
+  (include_bytes!(concat!(env!("CARGO_MANIFEST_DIR"), "/../fixtures/rsa/k7.pk8")), include_bytes!(concat!(env!("CARGO_MANIFEST_DIR"), "/../fixtures/rsa/k7.pub.der"))),
+  (include_bytes!(concat!(env!("CARGO_MANIFEST_DIR"), "/../fixtures/rsa/k8.pk8")), include_bytes!(concat!(env!("CARGO_MANIFEST_DIR"), "/../fixtures/rsa/k8.pub.der"))),
+];
+
+/// RSA pairs of a size PASETO v1 does not use (3072 and 4096 bits): the library may refuse them, it may not misbehave
+pub const RSA_UNUSUAL: [(&[u8], &[u8]); 2] = [
+  (include_bytes!(concat!(env!("CARGO_MANIFEST_DIR"), "/../fixtures/rsa/k9.pk8")), include_bytes!(concat!(env!("CARGO_MANIFEST_DIR"), "/../fixtures/rsa/k9.pub.der"))),
+  (include_bytes!(concat!(env!("CARGO_MANIFEST_DIR"), "/../fixtures/rsa/k10.pk8")), include_bytes!(concat!(env!("CARGO_MANIFEST_DIR"), "/../fixtures/rsa/k10.pub.der"))),
 ];
 
 /// Ed25519: (64-byte secret = seed || public, 32-byte public)
